@@ -257,6 +257,23 @@ func loadContracts(path string) (*Contracts, error) {
 					cl.E = e
 					cl.Text = r3
 				}
+			case "after":
+				// after <callee>#<k> assert <expr>
+				site, r2 := splitWord(rest)
+				kw, r3 := splitWord(r2)
+				if kw != "assert" {
+					return nil, fail(fmt.Errorf("after: expected 'assert'"))
+				}
+				if k := labelEnd(r3); k > 0 {
+					cl.Label = strings.TrimSpace(r3[:k])
+					r3 = r3[k+1:]
+				}
+				e, err := parseExpr(r3)
+				if err != nil {
+					return nil, fail(err)
+				}
+				cl.E = e
+				cl.Names = []string{site}
 			case "modifies", "panics", "props", "reads":
 				cl.Names = splitNames(rest)
 				if word == "props" {
